@@ -87,30 +87,35 @@ type (
 )
 
 type MNamed struct {
-	A  NU8             `plenc:"1"`
-	a  uint8           //nolint
-	B  NU16            `plenc:"2"`
-	Bn uint16          `plenc:"3"`
-	C  NU32            `plenc:"4"`
-	Cn uint32          `plenc:"5"`
-	D  NI8             `plenc:"6"`
-	Dn int8            `plenc:"7"`
-	E  NI16            `plenc:"8"`
-	En int16           `plenc:"9"`
-	F  NI32            `plenc:"10"`
-	Fn int32           `plenc:"11"`
-	G  NBool           `plenc:"12"`
-	Gn bool            `plenc:"13"`
-	H  NF32            `plenc:"14"`
-	Hn float32         `plenc:"15"`
-	I  NU64            `plenc:"16"`
-	J  NI64            `plenc:"17"`
-	K  NF64            `plenc:"18"`
-	L  NUint           `plenc:"19"`
-	An uint8           `plenc:"20"`
-	Ps *NU16           `plenc:"21"`
-	Sl []NU16          `plenc:"22"`
-	Mp map[string]NU16 `plenc:"23"`
+	A   NU8             `plenc:"1"`
+	a   uint8           //nolint
+	B   NU16            `plenc:"2"`
+	Bn  uint16          `plenc:"3"`
+	C   NU32            `plenc:"4"`
+	Cn  uint32          `plenc:"5"`
+	D   NI8             `plenc:"6"`
+	Dn  int8            `plenc:"7"`
+	E   NI16            `plenc:"8"`
+	En  int16           `plenc:"9"`
+	F   NI32            `plenc:"10"`
+	Fn  int32           `plenc:"11"`
+	G   NBool           `plenc:"12"`
+	Gn  bool            `plenc:"13"`
+	H   NF32            `plenc:"14"`
+	Hn  float32         `plenc:"15"`
+	I   NU64            `plenc:"16"`
+	J   NI64            `plenc:"17"`
+	K   NF64            `plenc:"18"`
+	L   NUint           `plenc:"19"`
+	An  uint8           `plenc:"20"`
+	Ps  *NU16           `plenc:"21"`
+	Sl  []NU16          `plenc:"22"`
+	Mp  map[string]NU16 `plenc:"23"`
+	S8  []int8          `plenc:"24"`
+	SB  []bool          `plenc:"25"`
+	SN8 []NI8           `plenc:"26"`
+	SU8 []NU8           `plenc:"27"`
+	S16 []int16         `plenc:"28"`
 }
 
 func init() {
